@@ -28,7 +28,15 @@ impl<T: LoadOps> CapacitatedMultiTrip<T> {
 //@end
 //@extract vrp-core/src/construction/features/capacity.rs :: impl<T> CapacitatedMultiTrip<T>/fn get_demand
 //@end
+//@extract vrp-core/src/construction/features/capacity.rs :: impl<T> CapacitatedMultiTrip<T>/fn has_markers
+//@end
+//@extract vrp-core/src/construction/features/capacity.rs :: impl<T> CapacitatedMultiTrip<T>/fn can_handle_demand_on_intervals
+//@end
+//@extract vrp-core/src/construction/features/capacity.rs :: impl<T> CapacitatedMultiTrip<T>/fn evaluate_activity
+//@end
 }
+//@extract vrp-core/src/construction/features/capacity.rs :: fn has_demand_violation
+//@end
 
 // ------------------------------------------------------------------ environment (assumed surroundings, NOT under proof)
 pub struct Dimensions { pub demand: Option<Box<dyn Any + Send + Sync>>, pub capacity: Option<Box<dyn Any + Send + Sync>> }
@@ -36,11 +44,21 @@ impl Dimensions {
     pub fn get_job_demand<T: LoadOps>(&self) -> Option<&Demand<T>> { self.demand.as_ref().and_then(|d| d.downcast_ref::<Demand<T>>()) }
     pub fn get_vehicle_capacity<T: LoadOps>(&self) -> Option<&T> { self.capacity.as_ref().and_then(|c| c.downcast_ref::<T>()) }
 }
-pub struct Single { pub dimens: Dimensions }
+pub struct Single { pub dimens: Dimensions, pub part_of_multi: bool }
+pub struct Multi {}
+pub enum Job { Single(Arc<Single>), Multi(Arc<Multi>) }
+impl Job { pub fn as_multi(&self) -> Option<&Arc<Multi>> { match self { Job::Multi(m) => Some(m), _ => None } } }
+#[derive(Clone, Debug, PartialEq, Eq)] pub struct ConstraintViolation { pub code: ViolationCode, pub stopped: bool }
+pub struct ActivityContext<'a> { pub index: usize, pub prev: &'a Activity, pub target: &'a Activity, pub next: Option<&'a Activity> }
 pub struct Activity { pub job: Option<Arc<Single>> }
+impl Activity {
+    /// real: Multi::roots(single) - a sub-job knows the multi job it belongs to
+    pub fn retrieve_job(&self) -> Option<Job> { self.job.as_ref().map(|s| if s.part_of_multi { Job::Multi(Arc::new(Multi {})) } else { Job::Single(s.clone()) }) }
+}
 pub struct Tour { pub activities: Vec<Activity> }
 impl Tour {
     pub fn total(&self) -> usize { self.activities.len() }
+    pub fn end_idx(&self) -> Option<usize> { self.activities.len().checked_sub(1) }
     pub fn activities_slice(&self, start: usize, end: usize) -> &[Activity] { &self.activities[start..=end] }
 }
 pub struct Vehicle { pub dimens: Dimensions }
@@ -54,6 +72,9 @@ impl RouteState {
     pub fn set_max_past_capacity_states<T: LoadOps>(&mut self, v: Vec<T>) { self.max_past = Some(Box::new(v)); }
     pub fn set_max_future_capacity_states<T: LoadOps>(&mut self, v: Vec<T>) { self.max_future = Some(Box::new(v)); }
     pub fn set_max_vehicle_load(&mut self, v: Float) { self.max_vehicle_load = Some(v); }
+    pub fn get_current_capacity_at<T: LoadOps>(&self, idx: usize) -> Option<&T> { self.current.as_ref().and_then(|b| b.downcast_ref::<Vec<T>>()).and_then(|v| v.get(idx)) }
+    pub fn get_max_future_capacity_at<T: LoadOps>(&self, idx: usize) -> Option<&T> { self.max_future.as_ref().and_then(|b| b.downcast_ref::<Vec<T>>()).and_then(|v| v.get(idx)) }
+    pub fn get_max_past_capacity_at<T: LoadOps>(&self, idx: usize) -> Option<&T> { self.max_past.as_ref().and_then(|b| b.downcast_ref::<Vec<T>>()).and_then(|v| v.get(idx)) }
 }
 pub struct RouteContext { pub route: Route, pub state: RouteState }
 impl RouteContext {
@@ -80,7 +101,7 @@ mod h {
     #[derive(Clone, Copy)] struct D { has: bool, p0: i32, p1: i32, d0: i32, d1: i32 }
     fn any_d() -> D { D { has: kani::any(), p0: v(), p1: v(), d0: v(), d1: v() } }
     fn act(d: Option<D>) -> Activity {
-        Activity { job: d.map(|d| Arc::new(Single { dimens: Dimensions { capacity: None, demand: if d.has { Some(Box::new(Demand::<SingleDimLoad> {
+        Activity { job: d.map(|d| Arc::new(Single { part_of_multi: false, dimens: Dimensions { capacity: None, demand: if d.has { Some(Box::new(Demand::<SingleDimLoad> {
             pickup: (SingleDimLoad::new(d.p0), SingleDimLoad::new(d.p1)), delivery: (SingleDimLoad::new(d.d0), SingleDimLoad::new(d.d1)) })) } else { None } } })) }
     }
 
@@ -126,6 +147,56 @@ mod h {
             }
             b += 1;
         }
+    }
+    /// C01 (capacity with reloads, pickup-and-delivery jobs): a sub-job of a multi job carries DYNAMIC demand that may stay
+    /// on board into later reload intervals, so it is accepted at position `index` only if, in the interval that contains
+    /// the position AND in every later interval, the load ahead plus the new load stays within capacity
+    #[kani::proof] #[kani::unwind(7)]
+    fn multi_job_dynamic_demand_checked_in_every_interval_from_the_insertion_on() {
+        let ds = [any_d(), any_d(), any_d()];
+        let tour = Tour { activities: vec![act(None), act(Some(ds[0])), act(Some(ds[1])), act(Some(ds[2]))] };
+        let cap = v();
+        let actor = Arc::new(Actor { vehicle: Arc::new(Vehicle { dimens: Dimensions { demand: None, capacity: Some(Box::new(SingleDimLoad::new(cap))) } }) });
+        let mut rc = RouteContext { route: Route { actor, tour }, state: RouteState { intervals: Some(vec![(0, 1), (2, 3)]), ..Default::default() } };
+        let mt = CapacitatedMultiTrip::<SingleDimLoad> { route_intervals: RouteIntervals::Multiple, violation_code: ViolationCode(1), phantom: Default::default() };
+        mt.recalculate_states(&mut rc);      // cached states are the ones the feature itself computes (their meaning: harness above)
+        // the dynamic pickup of a pickup-and-delivery job
+        let c = v();
+        let target = Activity { job: Some(Arc::new(Single { part_of_multi: true, dimens: Dimensions { capacity: None, demand: Some(Box::new(Demand::<SingleDimLoad> {
+            pickup: (SingleDimLoad::default(), SingleDimLoad::new(c)), delivery: (SingleDimLoad::default(), SingleDimLoad::default()) })) } })) };
+        let index: usize = kani::any(); kani::assume(index <= 3);
+        let prev = act(None);
+        let actx = ActivityContext { index, prev: &prev, target: &target, next: None };
+        let r = mt.evaluate_activity(&rc, &actx);
+        // independent replay of the load profile (as in `profile`)
+        let dem = |k: usize| -> (i32, i32, i32) { if k == 0 || !ds[k - 1].has { (0, 0, 0) } else { let d = ds[k - 1]; (d.d0, d.p0, d.p0 + d.p1 - d.d0 - d.d1) } };
+        let mut load = [0i32; 4];
+        let mut carried = 0;
+        let bounds = [(0usize, 1usize), (2, 3)];
+        let mut b = 0;
+        while b < 2 {
+            let (s, e) = bounds[b];
+            let (mut start, mut end_pickup) = (carried, 0);
+            let mut k = s; while k <= e { start += dem(k).0; end_pickup += dem(k).1; k += 1; }
+            let mut l = start;
+            let mut k = s; while k <= e { l += dem(k).2; load[k] = l; k += 1; }
+            carried = l - end_pickup;
+            b += 1;
+        }
+        let mut fits = true;
+        let mut b = 0;
+        while b < 2 {
+            let (s, e) = bounds[b];
+            if index <= e { let mut k = if index > s { index } else { s }; while k <= e { fits = fits && load[k] + c <= cap; k += 1; } }
+            b += 1;
+        }
+        if c != 0 {
+            assert!(r.is_none() == fits, "post_dynamic_demand_accepted_iff_it_fits_in_every_interval_from_the_insertion_on");
+            if let Some(viol) = &r { assert!(!viol.stopped && viol.code == ViolationCode(1), "post_capacity_violation_of_a_multi_job_does_not_stop_the_scan"); }
+        }
+        kani::cover!(c != 0 && r.is_none() && index == 1);
+        kani::cover!(c != 0 && r.is_some() && index == 1);
+        kani::cover!(c != 0 && r.is_some() && index == 3);
     }
     #[kani::proof] #[kani::unwind(7)] fn capacity_states_single_interval() { profile(false) }
     #[kani::proof] #[kani::unwind(7)] fn capacity_states_two_intervals() { profile(true) }
